@@ -325,7 +325,8 @@ def _pair_buckets(case, ans):
     return out
 
 
-_single = {"cases": cases, "impl": impl, "oracle": oracle, "neighbours": neighbours, "known_id": known_id, "nontrivial": nontrivial,
+_single = {"cases": cases, "impl": impl, "oracle": oracle, "neighbours": neighbours,
+           "known_id": globals().get("known_id") or (lambda case, failure: None), "nontrivial": nontrivial,
            "describe": describe, "buckets": buckets}
 
 
